@@ -227,16 +227,23 @@ class C03(Check):
     level_note = ('Trusted: Coq kernel, SeqSpec.v (the reference sequence), extraction + OCaml driver, harness, generators. '
                   'Arguments that alias the container (`x = x`, append(self), append(own element)) are excluded by the precondition '
                   '(property C04). usize arithmetic is modelled in Z without wrap-around; allocation never fails. '
+                  'Alignment of PoolList item headers for element sizes that are not a multiple of sizeof(void*) is outside the '
+                  'statement (PoolList<int> puts every other header on a misaligned address: undefined behaviour, harmless to '
+                  'contents/order/iterators on this platform; noted in DESIGN, proposed repair kept as '
+                  'fixes/C03/02-poollist-item-alignment.declined.patch): the PoolList histories use `long` and a pointer-sized class. '
                   'Element comparison is `key a < key b` for a total key. The theorems are about the model; the tie to the code is differential.')
     rule = ('cases = histories of 3 variables of one container (List / Array / PoolList) with element type int, Obj (heap-owning '
             'class, ASan sees lifetime errors) or kv (Obj ordered by value/16, so sort output reveals the partition scheme). Streams: '
             'mostly-valid random histories; malformed histories (positions/indices/variables out of range, self arguments: must be '
             'skipped identically); exhaustive short op sequences over a small alphabet (empty/one-element boundaries); Array sizes x '
             'capacities around every growth boundary; sort on every input order with repeats of up to 6 (quick) / 7 (thorough) '
-            'elements, sorted/reversed/constant/random lists up to length 2000. A case is non-trivial when at least 3 operations were '
-            'executed (not skipped) and some variable reached size >= 2; distinct = distinct op text.')
+            'elements, sorted/reversed/constant/random lists up to length 2000; sizes around the 4-item pool block boundary x every op at '
+            'first/middle/last position followed by allocations that reveal the free-list order. A case is non-trivial when at least 3 '
+            'operations were executed (not skipped) and some variable reached size >= 2, or when it sorts a list of >= 3 elements; '
+            'distinct = distinct op text.')
     assumptions = ['no aliasing arguments (other == this, own elements passed by reference): property C04',
                    'sizes/capacities are far below 2^64 (no usize wrap-around), allocation succeeds',
+                   'PoolList element types have a size that is a multiple of sizeof(void*) (item header alignment is outside the statement)',
                    'operator< of the element type is `key a < key b` for a function key into Z (a strict weak order)']
 
     pl_front = True
@@ -330,8 +337,10 @@ class C03(Check):
 
     def nontrivial(self, case, obs):
         done = sum(1 for l in obs if not l.startswith('skip') and not l.startswith('end') and not l.startswith('!'))
-        big = any(int(m) >= 2 for l in obs for m in re.findall(r'[LAP]\d n (\d+)', l))
-        return done >= 3 and big
+        sizes = [int(m) for l in obs for m in re.findall(r'[LAP]\d n (\d+)', l)]
+        big = any(m >= 2 for m in sizes)
+        sorts = any(l.startswith('sort') for l in case) and any(m >= 3 for m in sizes)
+        return (done >= 3 and big) or sorts
 
     # ---- streams --------------------------------------------------------------------------
     def streams(self, tier, rng):
@@ -340,7 +349,7 @@ class C03(Check):
         kinds = ['int', 'obj']
 
         # List ------------------------------------------------------------------------------
-        cases = [gen_list_case(rng, rng.choice(kinds), rng.randrange(10, 70)) for _ in range(1500 if th else 220)]
+        cases = [gen_list_case(rng, rng.choice(kinds), rng.randrange(10, 70)) for _ in range(1500 if th else 500)]
         out.append(Stream('list_hist', cases, note='mostly-valid random histories on 3 List variables'))
         cases = [gen_list_case(rng, rng.choice(kinds), rng.randrange(5, 40), valid=False) for _ in range(500 if th else 80)]
         out.append(Stream('list_malformed', cases, note='positions/variables out of range, self arguments: skipped on both sides'))
@@ -353,8 +362,25 @@ class C03(Check):
         out.append(Stream('list_small', cases, exhaustive=True,
                           note='every op sequence of length %d over an 18-op alphabet on tiny lists' % depth))
 
+        # pool boundaries: blocks of 4 items, LIFO free list (alloc_spec / nl_remove_refines / nl_clear_refines:
+        # a removed node is the next one handed out; a full block forces a new one)
+        cases = []
+        for n in (range(0, 10) if th else (0, 1, 2, 3, 4, 5, 8, 9)):
+            pos = sorted({0, 1, n // 2, max(n - 1, 0), n})
+            mids = (['rem 0 %d' % k for k in pos if k < n] + ['ins 0 %d 50' % k for k in pos] + ['insl 0 %d 1' % k for k in (0, n // 2, n)]
+                    + ['remf 0', 'remb 0', 'remv 0 %d' % (n // 2 + 1), 'remv 0 99', 'clear 0', 'pre 0 51', 'app 0 52', 'appl 0 1', 'prel 0 1',
+                       'asg 0 1', 'copy 0 1', 'swap 0 1', 'sort 0', 'new 0'])
+            for m in mids:
+                for m2 in (['rem 0 0', 'remb 0', 'clear 0', 'app 0 60'] if th else ['rem 0 0', 'app 0 60']):
+                    kind = 'obj' if (n + len(m)) % 2 else 'int'
+                    cases.append(['@list ' + kind, 'apps 1 7 8', 'apps 0 ' + ' '.join(str(k + 1) for k in range(n))]
+                                 + [m, m2, 'app 0 77', 'ins 0 0 78', 'ins 0 1 79', 'pre 0 80', 'app 0 81', 'find 0 77', 'eq 0 1'])
+        out.append(Stream('list_pool', cases, exhaustive=True,
+                          note='sizes around the 4-item block boundary x every op at first/middle/last position, then 5 allocations that '
+                               'show the free-list order (slot ids compared with the model)'))
+
         # Array -----------------------------------------------------------------------------
-        cases = [gen_array_case(rng, rng.choice(kinds), rng.randrange(10, 70)) for _ in range(1500 if th else 220)]
+        cases = [gen_array_case(rng, rng.choice(kinds), rng.randrange(10, 70)) for _ in range(1500 if th else 500)]
         out.append(Stream('array_hist', cases, note='mostly-valid random histories on 3 Array variables'))
         cases = [gen_array_case(rng, rng.choice(kinds), rng.randrange(5, 40), valid=False) for _ in range(500 if th else 80)]
         out.append(Stream('array_malformed', cases))
@@ -386,7 +412,7 @@ class C03(Check):
                           note='sizes 0..%d x initial capacities x every growing/shrinking op around the boundary' % (13 if th else 9)))
 
         # PoolList --------------------------------------------------------------------------
-        cases = [gen_plist_case(rng, rng.choice(kinds), rng.randrange(10, 70)) for _ in range(800 if th else 150)]
+        cases = [gen_plist_case(rng, rng.choice(kinds), rng.randrange(10, 70)) for _ in range(800 if th else 300)]
         out.append(Stream('plist_hist', cases))
         cases = [gen_plist_case(rng, rng.choice(kinds), rng.randrange(5, 40), valid=False) for _ in range(300 if th else 50)]
         out.append(Stream('plist_malformed', cases))
@@ -396,6 +422,19 @@ class C03(Check):
         if not th:
             cases = cases[::3]
         out.append(Stream('plist_small', cases, exhaustive=True))
+        cases = []
+        for n in (range(0, 10) if th else (0, 1, 3, 4, 5, 8, 9)):
+            pos = sorted({0, 1, n // 2, max(n - 1, 0)})
+            mids = (['rem 0 %d' % k for k in pos if k < n] + ['remr 0 %d' % k for k in pos if k < n]
+                    + ['remf 0', 'remb 0', 'clear 0', 'app 0 52', 'swap 0 1', 'new 0'])
+            for m in mids:
+                for m2 in ['rem 0 0', 'remb 0', 'app 0 60']:
+                    kind = 'obj' if (n + len(m)) % 2 else 'int'
+                    cases.append(['@plist ' + kind, 'app 1 7', 'app 1 8'] + ['app 0 %d' % (k + 1) for k in range(n)]
+                                 + [m, m2, 'app 0 77', 'app 0 78', 'app 0 79', 'remf 0', 'app 0 80', 'app 0 81'])
+        out.append(Stream('plist_pool', cases, exhaustive=True,
+                          note='PoolList sizes around the block boundary x every removal form at first/middle/last position, then in-place '
+                               'constructions that show the free-list order'))
 
         # sort ------------------------------------------------------------------------------
         cases = []
